@@ -22,11 +22,11 @@ CHECKS = {
     note=TB + "; clang's x86-64 SysV va_arg lowering; libc directive grammars as modelled in sa/checks/c09.py; 21 delegating entry points are recorded known findings (unsound literal \"%n\" pre-scan, reproduced)"),
  "C19": dict(
     engine="derive",
-    technique="taint analysis over SSA (sources: loads from either compared region; sinks: branch/select conditions, addresses, division operands, call arguments) at -O0 and, thorough, at -O1/-O2/-O3 IR",
+    technique="taint analysis over SSA (sources: loads from either compared region; sinks: branch/select conditions, addresses, division operands, call arguments) at -O0 and, thorough, at -O1/-O2/-O3 IR; relational value-set abstract interpretation of the comparison loop (byte pairs abstracted to <, =, >; accumulators followed to a fixpoint with the sign of the first difference as ghost)",
     category="other",
-    text="Decides the data-independence clause for all contents and all n: no instruction whose execution or address depends on a byte of either region exists in the two functions, at the IR the compiler actually optimises (vectorised forms included in the thorough tier). The result clause (0 iff equal / sign of first difference) is value-level and is not decided.",
+    text="Decides the data-independence clause for all contents and all n: no instruction whose execution or address depends on a byte of either region exists in the two functions, at the IR the compiler actually optimises (vectorised forms included in the thorough tier). The result clause is decided by abstract interpretation over the finite set of byte-pair relations: from every reachable abstract state of the loop accumulators the returned value is 0 iff no pair differed (timingsafe_bcmp) / has the sign of the first differing pair (timingsafe_memcmp), for every length and content.",
     design_ref="DESIGN.md §4 C19",
-    note=TB + "; the x86 back end is trusted not to turn the remaining arithmetic into secret-dependent branches; only the data-independence clause is claimed"),
+    note=TB + "; the x86 back end is trusted not to turn the remaining arithmetic into secret-dependent branches; the result clause is decided on the -O0 IR; a loop body that branches on data is not handled by it (and is a violation of the first clause)"),
  "C10": dict(
     engine="derive",
     technique="inter-procedural pointer-derivation and write-summary analysis: no store or writing callee effect reaches any operand of the 39 query functions",
